@@ -158,6 +158,11 @@ class Norm:
             inner = self.n(e[2])
             kind = e[3] if len(e) > 3 else ''
             if kind == 'FloatToInt': return ('f', 'trunc', inner)
+            if kind == 'IntToInt' and len(e) > 4 and not value_preserving(e[4], e[1]):
+                if inner[0] == 'c' and isinstance(inner[1], int) and not isinstance(inner[1], bool): return ('c', wrap_int(inner[1], e[1]))
+                if inner[0] == 'f' and inner[1] == 'clamp' and len(inner) == 5 and all(x[0] == 'c' and isinstance(x[1], int) and wrap_int(x[1], e[1]) == x[1] for x in inner[3:5]):
+                    return inner                            # clamp(x, lo, hi) with constant bounds inside the target type: the cast cannot change the value
+                return ('f', 'as_' + e[1], inner)          # narrowing / sign-changing cast: part of the value computed, kept
             return inner
         if k == 'param':
             base = ('v', self.T.show(('param', e[1], ())))
@@ -230,6 +235,27 @@ class Norm:
             x, y = sorted((a, b), key=repr)
             return ('f', name, x, y)
         return ('f', name, a, b)
+
+
+INT_TYPES = {'i8': (8, True), 'i16': (16, True), 'i32': (32, True), 'i64': (64, True), 'isize': (64, True), 'i128': (128, True),
+             'u8': (8, False), 'u16': (16, False), 'u32': (32, False), 'u64': (64, False), 'usize': (64, False), 'u128': (128, False)}
+
+
+def value_preserving(src, dst):
+    """an integer `as` cast that cannot change the value: widening with the same signedness, unsigned to a wider signed type, and usize -> isize
+    (sizes and indices stay below 2^63: the MEM_BOUND assumption).  Everything else (narrowing, signed -> unsigned, u8 -> i8, ...) can."""
+    if src not in INT_TYPES or dst not in INT_TYPES: return True          # bool / char / pointer-ish casts: not arithmetic
+    sb, ss = INT_TYPES[src]; db, ds = INT_TYPES[dst]
+    if ss == ds: return db >= sb
+    if not ss and ds: return db > sb or (src == 'usize' and dst == 'isize')
+    return False
+
+
+def wrap_int(v, ty):
+    bits, signed = INT_TYPES[ty]
+    v &= (1 << bits) - 1
+    if signed and v >= 1 << (bits - 1): v -= 1 << bits
+    return v
 
 
 def is_pow2(x):
@@ -388,6 +414,7 @@ def ev(t, env):
     if k == 'f':
         a = [ev(x, env) for x in t[2:]]
         n = t[1]
+        if n.startswith('as_') and n[3:] in INT_TYPES: return wrap_int(int(a[0]), n[3:])
         if n == 'ceil': return float(math.ceil(a[0]))
         if n == 'floor': return float(math.floor(a[0]))
         if n == 'trunc': return int(a[0])
